@@ -433,3 +433,234 @@ pub fn engine_pathguard(rt: &tokio::runtime::Runtime, cases: Vec<Value>, out: &m
     let _ = std::env::set_current_dir("/");
     let _ = std::fs::remove_dir_all(&base);
 }
+
+// ---------------------------------------------------------------------------------------------
+// ckpt (C14): checkpoint / edit / rewind sequences.  "direct" drives the real Workspace and the
+// real ToolRunner (auto checkpoints) with a thin hook adapter; "router" sends the same sequence
+// as session inputs through the real router (real WorkspaceCheckpointHook).
+
+struct HookAdapter {
+    ws: rip_workspace::Workspace,
+}
+
+impl rip_tools::CheckpointHook for HookAdapter {
+    fn create(&self, request: rip_tools::CheckpointRequest) -> Result<rip_tools::CheckpointRecord, String> {
+        let cp = self
+            .ws
+            .create_checkpoint(&request.session_id, request.label, &request.files)
+            .map_err(|e| format!("checkpoint create failed: {e}"))?;
+        Ok(rip_tools::CheckpointRecord {
+            id: cp.id,
+            label: cp.label,
+            created_at_ms: cp.created_at_ms,
+            files: cp.files.iter().map(|f| f.path.clone()).collect(),
+        })
+    }
+    fn rewind(&self, session_id: &str, checkpoint_id: &str) -> Result<rip_tools::CheckpointRewindRecord, String> {
+        let cps = self.ws.list_checkpoints(session_id).map_err(|e| format!("checkpoint list failed: {e}"))?;
+        let cp = cps.into_iter().find(|c| c.id == checkpoint_id).ok_or_else(|| "checkpoint not found".to_string())?;
+        self.ws
+            .rewind_to_checkpoint(session_id, checkpoint_id)
+            .map_err(|e| format!("checkpoint rewind failed: {e}"))?;
+        Ok(rip_tools::CheckpointRewindRecord {
+            id: cp.id,
+            label: cp.label,
+            files: cp.files.iter().map(|f| f.path.clone()).collect(),
+        })
+    }
+}
+
+fn ckpt_materialise(root: &Path, fs: &Value) {
+    if let Some(o) = fs.as_object() {
+        for (p, c) in o {
+            match c.as_str() {
+                Some("absent") | None => {}
+                Some("dir") => {
+                    let _ = std::fs::create_dir_all(root.join(p));
+                }
+                Some(v) => write_file(&root.join(p), &format!("content-{v}\n")),
+            }
+        }
+    }
+}
+
+fn ckpt_observe(root: &Path, paths: &[String]) -> Value {
+    let mut m = serde_json::Map::new();
+    for p in paths {
+        let full = root.join(p);
+        let v = if full.is_dir() {
+            "dir".to_string()
+        } else if full.is_file() {
+            let s = std::fs::read_to_string(&full).unwrap_or_default();
+            s.trim_end().strip_prefix("content-").map(str::to_string).unwrap_or(format!("?{s}"))
+        } else {
+            "absent".to_string()
+        };
+        m.insert(p.clone(), json!(v));
+    }
+    Value::Object(m)
+}
+
+fn patch_for_at(o: &Value, root: &Path) -> String {
+    let p = o["p"].as_str().unwrap_or("");
+    if o["k"] == "patch_move" {
+        // a pure move: one context-only hunk (the file's first line), so the content is unchanged
+        let line = std::fs::read_to_string(root.join(p)).unwrap_or_default().lines().next().unwrap_or("missing").to_string();
+        return format!("*** Begin Patch\n*** Update File: {p}\n*** Move to: {}\n@@\n {line}\n*** End Patch", o["q"].as_str().unwrap_or(""));
+    }
+    patch_for(o)
+}
+
+fn patch_for(o: &Value) -> String {
+    let p = o["p"].as_str().unwrap_or("");
+    match o["k"].as_str() {
+        Some("patch_add") => format!("*** Begin Patch\n*** Add File: {p}\n+content-{}\n*** End Patch", o["v"].as_str().unwrap_or("")),
+        Some("patch_del") => format!("*** Begin Patch\n*** Delete File: {p}\n*** End Patch"),
+        // move: an update with a no-op hunk (context only) and a destination
+        _ => format!("*** Begin Patch\n*** Update File: {p}\n*** Move to: {}\n@@\n+\n*** End Patch", o["q"].as_str().unwrap_or("")),
+    }
+}
+
+pub fn engine_ckpt(rt: &tokio::runtime::Runtime, cases: Vec<Value>, out: &mut NdjsonOut) {
+    let base = util::scratch_root().join(format!("ck-{}", uuid::Uuid::new_v4().simple()));
+    let elsewhere = base.join("elsewhere");
+    std::fs::create_dir_all(&elsewhere).unwrap();
+    let cwd_mode = cases.first().and_then(|c| c["cwd"].as_str()).unwrap_or("root").to_string();
+    let paths: Vec<String> = vec!["f".into(), "g".into(), "d/h".into()];
+    for p in &paths {
+        write_file(&elsewhere.join(p), "content-DECOY\n");
+    }
+    for case in cases {
+        let root = base.join(format!("ws-{}", uuid::Uuid::new_v4().simple()));
+        std::fs::create_dir_all(&root).unwrap();
+        ckpt_materialise(&root, &case["fs0"]);
+        let _ = std::env::set_current_dir(if cwd_mode == "root" { &root } else { &elsewhere });
+        let mode = case["mode"].as_str().unwrap_or("direct");
+        let steps = case["steps"].as_array().cloned().unwrap_or_default();
+        let mut obs = Vec::new();
+        let mut cp_ids: Vec<String> = Vec::new();
+        if mode == "direct" {
+            let registry = Arc::new(ToolRegistry::default());
+            register_builtin_tools(&registry, BuiltinToolConfig { workspace_root: root.clone(), ..BuiltinToolConfig::default() });
+            let hook = Arc::new(HookAdapter { ws: rip_workspace::Workspace::new(&root).unwrap() });
+            let runner = ToolRunner::with_checkpoint_hook(registry, 2, hook);
+            let mut seq = 0u64;
+            for st in &steps {
+                let o = &st["o"];
+                let k = o["k"].as_str().unwrap_or("");
+                let mut events: Vec<Value> = Vec::new();
+                let to_vals = |ev: Vec<rip_kernel::Event>| ev.iter().map(|e| serde_json::to_value(e).unwrap_or(Value::Null)).collect::<Vec<_>>();
+                match k {
+                    "create" => {
+                        let files: Vec<PathBuf> = o["paths"].as_array().cloned().unwrap_or_default().iter()
+                            .map(|p| if o["how"] == "abs" { root.join(p.as_str().unwrap_or("")) } else { PathBuf::from(p.as_str().unwrap_or("")) }).collect();
+                        events = to_vals(runner.create_checkpoint("s", &mut seq, "manual".into(), files));
+                    }
+                    "write" => {
+                        events = to_vals(rt.block_on(runner.run("s", &mut seq, ToolInvocation {
+                            name: "write".into(), args: json!({"path": o["p"], "content": format!("content-{}\n", o["v"].as_str().unwrap_or(""))}), timeout_ms: None })));
+                    }
+                    "patch_add" | "patch_del" | "patch_move" => {
+                        events = to_vals(rt.block_on(runner.run("s", &mut seq, ToolInvocation {
+                            name: "apply_patch".into(), args: json!({"patch": patch_for_at(o, &root)}), timeout_ms: None })));
+                    }
+                    "raw_delete" => { let _ = std::fs::remove_file(root.join(o["p"].as_str().unwrap_or(""))); }
+                    "raw_mkdir" => { let _ = std::fs::create_dir_all(root.join(o["p"].as_str().unwrap_or(""))); }
+                    "rewind" => {
+                        let i = o["i"].as_u64().unwrap_or(0) as usize;
+                        let id = if i == 0 { "no-such-checkpoint".to_string() } else { cp_ids.get(i - 1).cloned().unwrap_or_default() };
+                        events = to_vals(runner.rewind_checkpoint("s", &mut seq, &id));
+                    }
+                    _ => {}
+                }
+                step_observe(&events, &mut cp_ids, &root, &paths, &mut obs);
+            }
+        } else {
+            let data = base.join(format!("data-{}", uuid::Uuid::new_v4().simple()));
+            std::fs::create_dir_all(&data).unwrap();
+            let root2 = root.clone();
+            let steps2 = steps.clone();
+            let paths2 = paths.clone();
+            let (o2, ids2) = rt.block_on(async move {
+                let mut obs = Vec::new();
+                let mut cp_ids: Vec<String> = Vec::new();
+                let server = crate::srv::Server::start(data.clone(), root2.clone(), None, false).await;
+                let basurl = server.base.clone();
+                let client = reqwest::Client::new();
+                let v: Value = client.post(format!("{basurl}/sessions")).send().await.unwrap().json().await.unwrap_or(Value::Null);
+                let sid = v["session_id"].as_str().unwrap_or("").to_string();
+                for st in &steps2 {
+                    let o = &st["o"];
+                    let k = o["k"].as_str().unwrap_or("");
+                    let input = match k {
+                        "create" => {
+                            let files: Vec<String> = o["paths"].as_array().cloned().unwrap_or_default().iter()
+                                .map(|p| if o["how"] == "abs" { root2.join(p.as_str().unwrap_or("")).to_string_lossy().to_string() } else { p.as_str().unwrap_or("").to_string() }).collect();
+                            Some(json!({"checkpoint": {"action": "create", "label": "manual", "files": files}}).to_string())
+                        }
+                        "write" => Some(json!({"tool": "write", "args": {"path": o["p"], "content": format!("content-{}\n", o["v"].as_str().unwrap_or(""))}}).to_string()),
+                        "patch_add" | "patch_del" | "patch_move" => Some(json!({"tool": "apply_patch", "args": {"patch": patch_for_at(o, &root2)}}).to_string()),
+                        "rewind" => {
+                            let i = o["i"].as_u64().unwrap_or(0) as usize;
+                            let id = if i == 0 { "no-such-checkpoint".to_string() } else { cp_ids.get(i - 1).cloned().unwrap_or_default() };
+                            Some(json!({"checkpoint": {"action": "rewind", "id": id}}).to_string())
+                        }
+                        "raw_delete" => { let _ = std::fs::remove_file(root2.join(o["p"].as_str().unwrap_or(""))); None }
+                        "raw_mkdir" => { let _ = std::fs::create_dir_all(root2.join(o["p"].as_str().unwrap_or(""))); None }
+                        _ => None,
+                    };
+                    let mut events = Vec::new();
+                    if let Some(input) = input {
+                        let n0 = crate::runs::frames_of(&data, &sid).len();
+                        let _ = client.post(format!("{basurl}/sessions/{sid}/input")).json(&json!({"input": input})).send().await;
+                        let deadline = std::time::Instant::now() + std::time::Duration::from_secs(8);
+                        loop {
+                            let fr = crate::runs::frames_of(&data, &sid);
+                            if fr.len() > n0 && fr[n0..].iter().any(|f| f["type"] == "session_ended") {
+                                events = fr[n0..].to_vec();
+                                break;
+                            }
+                            if std::time::Instant::now() > deadline { break; }
+                            tokio::time::sleep(std::time::Duration::from_millis(4)).await;
+                        }
+                    }
+                    step_observe(&events, &mut cp_ids, &root2, &paths2, &mut obs);
+                }
+                server.stop().await;
+                let _ = std::fs::remove_dir_all(&data);
+                (obs, cp_ids)
+            });
+            obs = o2;
+            cp_ids = ids2;
+        }
+        let _ = cp_ids;
+        out.write(&json!({"id": case["id"], "obs": obs}));
+        let _ = std::env::set_current_dir("/");
+        let _ = std::fs::remove_dir_all(&root);
+    }
+    let _ = std::fs::remove_dir_all(&base);
+}
+
+fn step_observe(events: &[Value], cp_ids: &mut Vec<String>, root: &Path, paths: &[String], obs: &mut Vec<Value>) {
+    let kinds: Vec<String> = events.iter().map(|e| e["type"].as_str().unwrap_or("").to_string()).collect();
+    let created: Vec<&Value> = events.iter().filter(|e| e["type"] == "checkpoint_created").collect();
+    for c in &created {
+        cp_ids.push(c["checkpoint_id"].as_str().unwrap_or("").to_string());
+    }
+    let ok = !events.iter().any(|e| {
+        e["type"] == "checkpoint_failed" && kinds.iter().all(|k| k != "tool_started")
+            || e["type"] == "tool_failed"
+            || (e["type"] == "tool_ended" && e["exit_code"] != 0)
+    });
+    // a checkpoint_created(auto) must precede tool_started
+    let auto_before_tool = match (kinds.iter().position(|k| k == "checkpoint_created"), kinds.iter().position(|k| k == "tool_started")) {
+        (Some(c), Some(t)) => c < t,
+        (None, Some(_)) => false,
+        _ => true,
+    };
+    obs.push(json!({
+        "ok": ok, "fs": ckpt_observe(root, paths), "ncp": cp_ids.len(), "kinds": kinds, "auto_before_tool": auto_before_tool,
+        "auto_files": created.first().map(|c| c["files"].clone()).unwrap_or(Value::Null),
+        "auto": created.first().map(|c| c["auto"].clone()).unwrap_or(Value::Null),
+    }));
+}
